@@ -261,5 +261,7 @@ def check_values(case, chain, mtasks, names=None):
         except Exception as e:
             raise Violation('value-raised', {'task': n, 'error': repr(e)[:400], 'case': describe(case)})
         got = digest_of(v)
+        if mtasks[n].kind == 'gen_empty' and got is None:
+            continue
         if got != mtasks[n].value:
             raise Violation('value', {'task': n, 'got': got, 'want': mtasks[n].value, 'case': describe(case)})
